@@ -80,7 +80,7 @@ def run_one(ch, ctx):
     if ch.chance(7):
         # swarm: payload-size profile -- one string / bytes / fixed leaf larger than any I/O buffer
         # (8 KiB), placed last so that nothing after it would notice a sloppy skip
-        n = ch.pick([8193, 9000, 20000])
+        n = ch.pick([8193, 9000, 20000, 65536, 65537, 70000])   # also beyond 64 KiB (chunked reads)
         form = ch.draw(7)
         big_s = ch.pick(["a", "é"]) * n
         big_b = bytes([ch.draw(256)]) * n
